@@ -84,6 +84,10 @@ theorem sLog (c : Config) : af (rLog c) ↔ DLog c := by
   simp only [rLog, af_cons, af_nil, and_true, DLog, Bool.and_eq_false_iff, bne_eq_false_iff_eq,
     Bool.not_eq_false', List.contains_eq_mem, decide_eq_true_eq]
 
+theorem sRanges (c : Config) : af (rRanges c) ↔ DRanges c := by
+  simp only [rRanges, af_cons, af_nil, and_true, DRanges, tooLong, Bool.and_eq_false_iff, decide_eq_false_iff_not]
+  cases c.wsOn <;> cases c.actOn <;> cases c.pasOn <;> cases c.rlOn <;> cases c.cbOn <;> simp <;> omega
+
 /-- **Rejects exactly the invalid.** Loading succeeds iff every documented constraint holds —
 for any combination of sections. -/
 theorem validate_iff_documented (c : Config) : validate c = none ↔ Documented c := by
@@ -94,7 +98,7 @@ theorem validate_iff_documented (c : Config) : validate c = none ↔ Documented 
     · intro h r hr; simp [h r hr]
   rw [hv]
   simp only [rules, af_append, af_cons, af_nil, and_true, sServer, sTimeouts, sLB, sHealth, sRL, sCB, sMetrics,
-    sAdmin, sLog, Documented, DBackends]
+    sAdmin, sLog, sRanges, Documented, DBackends]
   have hb : af (backendRules c.backends) ↔ ∀ b ∈ c.backends, b.name ≠ "" ∧ b.address ≠ "" ∧ 0 ≤ b.weight :=
     backendRules_none c.backends
   rw [hb]
@@ -115,6 +119,33 @@ theorem accepted_breaker_live (c : Config) (h : validate c = none) (hon : c.cbOn
     1 ≤ c.cbSuccess ∧ (c.cbMax = 0 ∨ c.cbSuccess ≤ c.cbMax) := by
   have hd := ((validate_iff_documented c).mp h).2.2.2.2.2.2.1 hon
   omega
+
+/-- **Accepted values survive their conversions.** For an accepted configuration every duration
+the balancer builds (`time.Duration(seconds) * time.Second`, an `int64` of nanoseconds) and every
+breaker count (`uint32(n)`) is the configured number itself: nothing wraps. -/
+theorem accepted_values_fit (c : Config) (h : validate c = none) :
+    (∀ v ∈ [c.tRead, c.tWrite, c.tIdle, c.tHandler, c.tShutdown, c.tDial, c.tBRead, c.tBIdle],
+        0 ≤ v * 1000000000 ∧ v * 1000000000 < 9223372036854775808) ∧
+    (c.pasOn = true → 0 < c.pasTimeout * 1000000000 ∧ c.pasTimeout * 1000000000 < 9223372036854775808) ∧
+    (c.rlOn = true → 0 < c.rlRefill * 1000000000 ∧ c.rlRefill * 1000000000 < 9223372036854775808) ∧
+    (c.cbOn = true →
+        (0 < c.cbInterval * 1000000000 ∧ c.cbInterval * 1000000000 < 9223372036854775808) ∧
+        (0 < c.cbTimeout * 1000000000 ∧ c.cbTimeout * 1000000000 < 9223372036854775808) ∧
+        c.cbMax % 4294967296 = c.cbMax ∧ c.cbFailure % 4294967296 = c.cbFailure ∧
+        c.cbSuccess % 4294967296 = c.cbSuccess) := by
+  have hd := (validate_iff_documented c).mp h
+  obtain ⟨_, _, ht, _, hh, hrl, hcb, _, _, _, hr⟩ := hd
+  obtain ⟨hs, _, _, hp, hl, hc⟩ := hr
+  unfold DTimeouts at ht
+  unfold maxSeconds maxU32 at *
+  refine ⟨?_, ?_, ?_, ?_⟩
+  · intro v hv
+    simp only [List.mem_cons, List.mem_nil_iff, or_false] at hv
+    rcases hv with rfl | rfl | rfl | rfl | rfl | rfl | rfl | rfl <;> omega
+  · intro hon; have := hp hon; have := (hh.2 hon); omega
+  · intro hon; have := hl hon; have := hrl hon; omega
+  · intro hon; have := hc hon; have := hcb hon
+    refine ⟨by omega, by omega, ?_, ?_, ?_⟩ <;> (apply Int.emod_eq_of_lt <;> omega)
 
 /-! ### the shipped sample configuration (helios.yaml) satisfies the documented constraints -/
 private def shipped : Config :=
